@@ -104,10 +104,11 @@ func init() {
 		for i := 0; i < 4; i++ {
 			jobs = append(jobs, mk(`a`, w, false, 0), mk(`sum by (l) (rate(a[1m]))`, w, false, 0), mk(`a + on (l) group_left b`, w, false, 0),
 				mk(`topk(1, a)`, core.Instant(45000), false, 0), mk(`count_values("v", a)`, w, true, 0), mk(`-a + scalar(sum(b))`, w, false, 0),
-				mk(`sum by (l) (a)`, w, false, 2), mk(`histogram_quantile(0.5, a)`, core.Instant(45000), false, 0))
+				mk(`sum by (l) (a)`, w, false, 2), mk(`histogram_quantile(0.5, a)`, core.Instant(45000), false, 0),
+				mk(`a{l="0"} + a`, w, false, 0), mk(`sum(a{m="1"}) / sum(a)`, w, false, 0))
 		}
 		for i := range jobs {
-			if i%8 == 7 {
+			if i%10 == 7 {
 				jobs[i].cancel = true
 			}
 		}
